@@ -198,6 +198,20 @@ def run_property(prop, tier, repo_root):
             if f not in functions:
                 functions.append(f)
     trusted = sorted({f"primitive contract [T]: {p}" for p in prims.USED} | set(getattr(mod, "TRUSTED", [])))
+    pv = None
+    if getattr(mod, "VALIDATE_LAYOUT_PRIMS", False):
+        from . import validate
+        pv = validate.run(seed=int(os.environ.get("VERIF_SEED", "0") or 0), n_each=3 if tier == "quick" else 40)
+    res = _result(obligations, functions, trusted, mod, checks, t0)
+    if pv is not None:
+        res["primitive_validation"] = {"layout_contracts_sampled_against_real_torch": pv["samples"], "operations": pv["ops"],
+                                       "disagreements": pv["failures"][:5]}
+        if pv["failures"]:
+            res["error"] = "broken assumption: a layout primitive contract disagrees with the real library: " + pv["failures"][0][:300]
+    return res
+
+
+def _result(obligations, functions, trusted, mod, checks, t0):
     return {
         "obligations": obligations,
         "functions": functions,
